@@ -115,13 +115,13 @@ class StringSerializableRegistry:
         flag = True
         while flag:
             flag = False
-            filtered: Set[T_StringSerializable] = set()
+            replaced: Set[T_StringSerializable] = set()
             for t1, t2 in permutations(types, 2):
                 if (t1, t2) in self.replaces:
-                    filtered.add(t2)
+                    replaced.add(t1)
                     flag = True
             if flag:
-                types = filtered
+                types = types - replaced
         # noinspection PyUnboundLocalVariable
         return types
 
